@@ -856,11 +856,12 @@ class Spec(object):
                         content = self.out
                     finally:
                         self.out = saved
-                    # … and replaced by the template body, open to the later match templates;
+                    # … and replaced by the template body, open to the later match templates of
+                    # the window in force (the rest see it when the enclosing body is matched);
                     # select() hands the content to the body
                     self.sel.insert(0, content)
                     try:
-                        self.render(body, where, depth + 1, idx + 1, None)
+                        self.render(body, where, depth + 1, idx + 1, hi)
                     finally:
                         self.sel.pop(0)
             elif k == 'include':
